@@ -66,6 +66,10 @@ static ares_status_t ares_nameoffset_create(ares_llist_t **list,
   }
 
   off->name     = ares_strdup(name);
+  if (off->name == NULL) {
+    status = ARES_ENOMEM; /* LCOV_EXCL_LINE: OutOfMemory */
+    goto fail;            /* LCOV_EXCL_LINE: OutOfMemory */
+  }
   off->name_len = ares_strlen(off->name);
   off->idx      = idx;
 
